@@ -107,6 +107,7 @@ class Ctx:
         self.failure_seen = False
         self.last_failure = None
         self.replaying = False
+        self.suffix = ''  # appended to every clause name of the current case (e.g. ' [f32]')
 
     # -- called from run() ------------------------------------------------------------------
     def note(self, klass, desc=None, nontrivial=False, labels=()):
@@ -136,11 +137,12 @@ class Ctx:
 
     def require(self, cond, clause, detail=''):
         if not bool(cond):
-            raise Violation(clause, detail if isinstance(detail, str) else repr(detail))
+            raise Violation(clause + self.suffix, detail if isinstance(detail, str) else repr(detail))
 
     def close(self, a, b, tol, clause, scale=1.0):
         """max|a-b| <= tol*scale, finite; records the observed maximum residual per clause."""
         import numpy as np
+        clause = clause + self.suffix
         a = np.asarray(_to_np(a))
         b = np.asarray(_to_np(b))
         if a.shape != b.shape:
@@ -167,7 +169,7 @@ class Ctx:
         import numpy as np
         x = np.asarray(_to_np(x))
         if not np.all(np.isfinite(x)):
-            raise Violation(clause, 'non-finite value in result')
+            raise Violation(clause + self.suffix, 'non-finite value in result')
 
     def inconclusive_case(self, why):
         self.inconclusive += 1
@@ -204,6 +206,7 @@ def execute(ctx, sub, case):
     import hypothesis.errors
     ctx.case = case
     ctx.klass = None
+    ctx.suffix = ''
     if ctx.deadline is not None and (not ctx.failure_seen) and (not ctx.replaying) and time.time() > ctx.deadline:
         ctx.n_budget_skipped += 1
         return None
